@@ -324,6 +324,60 @@ def gen_crowded(rng, kind, v, nthreads):
     return cfg, threads
 
 
+def is_refinable_cuckoo(kind, v):
+    if not kind.startswith("cuckoo"):
+        return False
+    w = v - 64 if v >= 64 and kind == "cuckoo_iset" else (v & 31)
+    return (w >> 1) & 1 == 1
+
+
+PARK_STEPS = 6      # begin, m_access.exchange, m_nCapacity.load, m_access.store, m_Owner.load, m_nCapacity.load
+
+
+def parked_programs(rng, name, every):
+    """refinable CuckooSet/Map: thread 0 starts an insert of key 1 and is parked inside acquire() after the first
+    capacity test, before it takes its cell locks; thread 1 inserts 0, 2, 4 (two buckets, threshold 1, one table-1
+    probe set for all keys: the third insert ends in a resize that replaces the lock arrays) and then operates on
+    key 1 as well.  -> list of (pilot case, program)"""
+    src, grp, kind, variants = EXES[name]
+    out = []
+    for i, v in enumerate([v for v in variants if is_refinable_cuckoo(kind, v)]):
+        if every > 1 and rng.below(every) != 0:
+            continue
+        codes = ops_for(kind, v)
+        ins = [1, 2, 3, 9] if 9 in codes else [1, 2, 3]
+        cfg = gen_cfg(rng, kind, v)
+        cfg[1] = 2; cfg[3] = 1; cfg[4] = 0; cfg[5] = 6
+        threads = [[[rng.choice(ins), 1, 11, 1]],
+                   [[1, 0, 21, 1], [1, 2, 22, 1], [1, 4, 23, 1], [rng.choice(ins + [5]), 1, 24, 1]]]
+        out.append({"id": "%s_park%d" % (name, i), "cfg": cfg, "threads": threads,
+                    "sched": [0] * PARK_STEPS + [1] * 1500, "exe": name})
+    return out
+
+
+def parked_cases(pilots, logs):
+    """from the pilot logs: thread 1 is stopped at every step of the critical section of its last operation, then
+    thread 0 runs on (with the cell locks it chose before the resize, unless acquire() notices), then thread 1"""
+    out = []
+    for p in pilots:
+        lg = logs.get(p["id"])
+        if lg is None or lg["end"] != "finished":
+            continue
+        t0 = [l for l in lg["lines"] if l.startswith("0 ") and " ev " not in l]
+        if len(t0) < PARK_STEPS or t0[2].split(" ")[1:3] != t0[5].split(" ")[1:3] or t0[2].split(" ")[1] != "ld":
+            continue                       # not the expected shape of acquire(): no directed case for this variant
+        inv = [i for i, l in enumerate(lg["lines"]) if l.startswith("1 ev inv")]
+        if len(inv) != len(p["threads"][1]):
+            continue
+        m0 = sum(1 for l in lg["lines"][:inv[-1]] if l.startswith("1 ") and " ev " not in l)
+        for d in range(4, 22):
+            c = dict(p)
+            c["id"] = "%s_%d" % (p["id"], d)
+            c["sched"] = [0] * PARK_STEPS + [1] * (m0 + d) + [0] * 160 + [1] * 60
+            out.append(c)
+    return out
+
+
 def gen_cases(rng, name, n, tag):
     src, grp, kind, variants = EXES[name]
     cases = []
@@ -542,6 +596,15 @@ def run(ctx):
     for name in sorted(EXES):
         cs = [c for c in corpus if c.get("exe") == name] + gen_cases(ctx.rng.fork(), name, per_exe, "g")
         allcases[name] = cs
+    # directed family for the refinable cuckoo policy: a thread parked inside acquire() across a complete resize
+    parked = {}
+    prng = ctx.rng.fork()
+    for name in sorted(EXES):
+        pilots = parked_programs(prng, name, 1 if ctx.thorough() else 3)
+        if pilots:
+            rc, plogs = run_impl(ctx, exes[name], pilots, "pilot_" + name)
+            parked[name] = parked_cases(pilots, plogs)
+            allcases[name] = allcases[name] + parked[name]
     results = {}
 
     mresults = {}
@@ -610,6 +673,7 @@ def run(ctx):
         "samples": [allcases["cuckoo_i"][0], allcases["striped_i0"][0]],
         "step_correspondence": corr,
         "cases_with_the_C17_sequential_drop": len(DROPPED),
+        "directed_cases_thread_parked_in_refinable_acquire_across_a_resize": sum(len(v) for v in parked.values()),
         "traces_validated_against_impl": sum(v["agree"] for v in corr.values()),
     })
     return ctx.finish(vcheck.STD_TRUSTED + ["hook layer: khizmax_libcds_verif::atomic<T>, baton scheduler, event log (hooks/include)",
